@@ -3,7 +3,7 @@ package watstrip
 // Bounded stand-in for C06's behaviour clause (labelled bounded; never counted as proved): the marking pass
 // is proved by contracts; that the printed, stripped module is valid and behaves as the original needs the
 // printer, the assembler and an execution semantics, which no function contract here reaches. Every module
-// built from a fixed set of optional features (all 2^8 combinations) is stripped by the real WatStrip; the
+// built from a fixed set of optional features (all 2^11 combinations) is stripped by the real WatStrip; the
 // original and the stripped text are assembled by the real Wat2Wasm and executed on the embedded engine
 // (assumed to implement WebAssembly) next to a small "env" module providing the imports; every export must
 // return the same results for the same arguments, the start function must have had the same effect, and
@@ -40,6 +40,9 @@ const (
 	zzStart                    // a start function that sets a global
 	zzNested                   // calls inside nested block / loop / if
 	zzCycle                    // mutually recursive functions
+	zzFixedMem                 // a memory whose maximum equals its initial size, and a function that tries to grow it
+	zzData                     // overlapping data segments, the later one ending in zero bytes
+	zzRenamed                  // a function exported under a name that differs from its identifier
 	zzAll
 )
 
@@ -53,7 +56,14 @@ func zzModule(f int) (wat string, exports []string) {
 	if f&zzUnusedImport != 0 {
 		sb.WriteString("\t(import \"env\" \"unused\" (func $unused (param i32)))\n")
 	}
-	sb.WriteString("\t(memory 1)\n")
+	if f&zzFixedMem != 0 {
+		sb.WriteString("\t(memory 1 1)\n")
+	} else {
+		sb.WriteString("\t(memory 1)\n")
+	}
+	if f&zzData != 0 {
+		sb.WriteString("\t(data (i32.const 16) \"\\01\\02\\03\\04\\05\\06\")\n\t(data (i32.const 18) \"\\09\\00\\00\")\n\t(data (i32.const 40) \"\\00\\07\\00\")\n")
+	}
 	if f&zzTable != 0 {
 		sb.WriteString("\t(type $i2i (func (param i32) (result i32)))\n\t(table 4 funcref)\n\t(elem (i32.const 1) $double $triple $square)\n")
 	}
@@ -93,6 +103,18 @@ func zzModule(f int) (wat string, exports []string) {
 		sb.WriteString("\t(func $even (export \"even\") (param i32) (result i32)\n\t\tlocal.get 0\n\t\ti32.eqz\n\t\tif $z (result i32)\n\t\t\ti32.const 1\n\t\telse\n\t\t\tlocal.get 0\n\t\t\ti32.const 1\n\t\t\ti32.sub\n\t\t\tcall $odd\n\t\tend\n\t)\n")
 		sb.WriteString("\t(func $odd (param i32) (result i32)\n\t\tlocal.get 0\n\t\ti32.eqz\n\t\tif $z (result i32)\n\t\t\ti32.const 0\n\t\telse\n\t\t\tlocal.get 0\n\t\t\ti32.const 1\n\t\t\ti32.sub\n\t\t\tcall $even\n\t\tend\n\t)\n")
 		exports = append(exports, "even")
+	}
+	if f&zzFixedMem != 0 {
+		sb.WriteString("\t(func $grow (export \"grow\") (param i32) (result i32)\n\t\tlocal.get 0\n\t\tmemory.grow\n\t\tmemory.size\n\t\ti32.const 100\n\t\ti32.mul\n\t\ti32.add\n\t)\n")
+		exports = append(exports, "grow")
+	}
+	if f&zzData != 0 {
+		sb.WriteString("\t(func $word (export \"word\") (param i32) (result i32)\n\t\tlocal.get 0\n\t\ti32.const 4\n\t\ti32.mul\n\t\ti32.load offset=16\n\t)\n")
+		exports = append(exports, "word")
+	}
+	if f&zzRenamed != 0 {
+		sb.WriteString("\t(func $internal_name (export \"public_name\") (param i32) (result i32)\n\t\tlocal.get 0\n\t\tcall $only_from_renamed\n\t)\n\t(func $only_from_renamed (param i32) (result i32)\n\t\tlocal.get 0\n\t\ti32.const 77\n\t\ti32.xor\n\t)\n")
+		exports = append(exports, "public_name")
 	}
 	sb.WriteString(")\n")
 	return sb.String(), exports
@@ -172,5 +194,5 @@ func TestVerifBounded(t *testing.T) {
 			t.Fatalf("COUNTEREXAMPLE features %#x: an imported function nothing calls survives stripping\n%s", f, s)
 		}
 	}
-	fmt.Printf("BOUNDED {\"cases\": %d, \"bound\": \"modules built from all 2^8 combinations of 8 optional features (unused function import, imported global, dead functions, element segment with call_indirect, call behind return, start function, calls inside nested block/loop/if, mutual recursion); original and stripped text assembled and executed, every export compared on %d arguments\"}\n", cases, len(args))
+	fmt.Printf("BOUNDED {\"cases\": %d, \"bound\": \"modules built from all 2^11 combinations of 11 optional features (unused function import, imported global, dead functions, element segment with call_indirect, call behind return, start function, calls inside nested block/loop/if, mutual recursion, fixed-size memory with memory.grow, overlapping data segments ending in zeros, export under another name); original and stripped text assembled and executed, every export compared on %d arguments\"}\n", cases, len(args))
 }
